@@ -74,6 +74,9 @@ pub struct Variant {
     /// standard output is a terminal
     #[serde(default)]
     pub stdout_tty: bool,
+    /// write `-l` together with the next short option (`-lf path`, `-lfpath`)
+    #[serde(default)]
+    pub combine_short: bool,
     /// the input path behaves like a FIFO / `/dev/stdin` / process substitution: it delivers the
     /// data but its metadata reports size 0
     #[serde(default)]
@@ -242,6 +245,7 @@ fn gen_variant(rng: &mut Rng, scn_targets: usize, doc: &Doc, mode: Mode) -> Vari
         bystanders,
         stdout_tty: rng.chance(1, 5),
         input_sizeless: rng.chance(1, 8),
+        combine_short: rng.chance(1, 3),
     }
 }
 
@@ -493,6 +497,16 @@ pub fn build_exec(scn: &C20Scn, v: &Variant, text: &str) -> (Fs, Exec, Option<St
                     argv.push(name);
                     argv.push(val);
                 }
+            }
+        }
+    }
+    if v.combine_short {
+        // `-l -f path` may be written `-lf path`, `-l -fpath` as `-lfpath`
+        if let Some(i) = argv.iter().position(|a| a == "-l") {
+            if let Some(j) = argv.iter().position(|a| (a.starts_with("-f") || a.starts_with("-o")) && !a.starts_with("--")) {
+                let merged = format!("-l{}", &argv[j][1..]);
+                argv[j] = merged;
+                argv.remove(i);
             }
         }
     }
@@ -1001,6 +1015,9 @@ pub fn shrink_candidates(s: &C20Scn) -> Vec<C20Scn> {
         push(nv);
         let mut nv = v.clone();
         nv.input_sizeless = false;
+        push(nv);
+        let mut nv = v.clone();
+        nv.combine_short = false;
         push(nv);
         let mut nv = v.clone();
         nv.explicit_defaults = 0;
